@@ -538,6 +538,83 @@ def _refpair_rule(chk, prog):
 _run_locks = run
 
 
+def _msgrec_rule(chk, prog):
+    """A hand-off to another thread describes ONE waiter: the event is posted to that waiter's VM and carries its
+    fiber, its saved generation and the mode it waits in (the mode decides how the payload is unpacked and which
+    result shape the fiber gets).  All four must come from the same JanetChannelPending record; a field left over
+    from an earlier message (the re-dispatch path receives one) addresses a different waiter."""
+    rule = "C08-MSGREC"
+    chk.rule(rule, "every message posted to janet_thread_chan_cb takes vm, fiber, sched_id and mode from one pending-waiter record")
+    n = 0
+    NEED = {"fiber": "fiber", "argi": "sched_id", "tag": "mode"}
+    for fn in prog.tus["ev.c"].funcs.values():
+        sites = [c for c in fn.calls("janet_ev_post_event")
+                 if len(c.args) == 3 and is_ref(strip_casts(c.args[1]), "janet_thread_chan_cb") and is_ref(strip_casts(c.args[2]))]
+        if not sites:
+            continue
+        chk.analysed(fn)
+
+        def src(x):
+            x = strip_casts(x)
+            if x.k == "mem" and is_ref(strip_casts(x.kids[0])) and "JanetChannelPending" in (strip_casts(x.kids[0]).t or ""):
+                return ("rec", strip_casts(x.kids[0]).name, x.field)
+            if x.v is not None:
+                return ("const", x.v)
+            return ("other", x.text()[:40])
+
+        def transfer(st, x):
+            if x.k == "asg" and x.op == "=":
+                l = x.kids[0]
+                if l.k == "mem" and is_ref(l.kids[0]) and "JanetEVGenericMessage" in (l.kids[0].t or ""):
+                    key = (l.kids[0].name, l.field)
+                    return frozenset(f for f in st if f[0] != key) | {(key, src(x.kids[1]))}
+                if is_ref(l) and "JanetVM" in (l.t or ""):
+                    key = (l.name, None)
+                    return frozenset(f for f in st if f[0] != key) | {(key, src(x.kids[1]))}
+            if x.k == "vardecl" and "JanetVM" in (x.t or "") and x.kids:
+                key = (x.name, None)
+                return frozenset(f for f in st if f[0] != key) | {(key, src(x.kids[0]))}
+            return st
+        init = frozenset(((p["n"], f), ("incoming",)) for p in fn.params if "JanetEVGenericMessage" in p.get("t", "")
+                         for f in NEED)
+        IN, OUT = flow.forward(fn, init, transfer, lambda a, b: a | b)
+        for x, st in flow.states_at(fn, IN, transfer):
+            if x not in sites:
+                continue
+            n += 1
+            chk.instance(rule)
+            m = strip_casts(x.args[2]).name
+            vmarg = strip_casts(x.args[0])
+            got = {}
+            for f in NEED:
+                got[f] = set(v for (k, v) in st if k == (m, f))
+            if is_ref(vmarg):
+                got["vm"] = set(v for (k, v) in st if k == (vmarg.name, None))
+            else:
+                got["vm"] = {src(vmarg)}
+            recs = set(v[1] for vs in got.values() for v in vs if v[0] == "rec")
+            probs = []
+            for f, want in list(NEED.items()) + [("vm", "thread")]:
+                vs = got[f]
+                if not vs:
+                    probs.append("%s is never set" % f)
+                for v in vs:
+                    if v[0] == "rec" and v[2] == want:
+                        continue
+                    if f == "tag" and v[0] == "const":
+                        continue
+                    probs.append("%s comes from %s" % (f, "the message this function received" if v[0] == "incoming" else " ".join(map(str, v))))
+            if len(recs) > 1:
+                probs.append("fields come from different records %s" % sorted(recs))
+            if probs:
+                chk.violation(rule, "ev.c", fn.name, "post:%s" % (sorted(recs)[0] if recs else m), x.loc,
+                              "message posted to janet_thread_chan_cb does not describe one waiter: %s" % "; ".join(probs))
+            else:
+                chk.ok(rule, "%s: message for `%s` (vm, fiber, sched_id, mode%s)" % (
+                    fn.name, sorted(recs)[0], "" if not any(v[0] == "const" for v in got["tag"]) else " = constant"))
+    chk.floor(rule, 5, n)
+
+
 def run(chk):   # noqa
     prog = Program.load("default")
     S = Summaries(prog)
@@ -546,3 +623,4 @@ def run(chk):   # noqa
     _globals_rule(chk, prog)
     _atomic_rule(chk, prog)
     _refpair_rule(chk, prog)
+    _msgrec_rule(chk, prog)
